@@ -295,7 +295,10 @@ impl IRBuilder {
             .map(|(i, term)| match term {
                 Term::Variable(v) => v.clone(),
                 Term::Constant(_) => format!("_const_a{atom_idx}_c{i}"),
-                Term::Placeholder => format!("_ph_{}_{}", atom.relation, i),
+                // Anonymous variables are distinct per occurrence: include the atom index, or
+                // `_` at the same position of two atoms over the same relation would get the
+                // same column name and be joined as if it were one shared variable.
+                Term::Placeholder => format!("_ph_a{atom_idx}_{}_{}", atom.relation, i),
                 // Aggregates in body atoms refer to the variable they aggregate
                 Term::Aggregate(_, v) => v.clone(),
                 // Arithmetic expressions - use the variables they reference
